@@ -261,6 +261,88 @@ def orientation_rule(rep, f):
     rep.count("divided differences (X - Y) / (U - V)", n_)
 
 
+def layout_of(funcs):
+    """{component index: set of eigen-index pairs} of the 6-vectors of second derivatives with respect to the eigenvalues, read from
+    every term X[k] * (TA ^ TB) whose factors TA, TB are single-index eigen-tensors (nA, std::get<A>(n))."""
+    lay = {}
+
+    def single(f, sid):
+        t = f.text(f.strip(sid))
+        m = re.match(r"^n(\d)$", t) or re.match(r"^std::get<(\d)>\(\w+\)$", t) or re.match(r"^std::get\(\w+\)$", t)
+        if m is None:
+            return None
+        if m.groups():
+            return m.group(1)
+        return None
+    for f in funcs:
+        for s, n in f.stmts.items():
+            if not (n["k"] == "CXXOperatorCallExpr" and n.get("op") == "*" and len(n.get("args", [])) == 2):
+                continue
+            a0, a1 = f.strip(n["args"][0]), f.strip(n["args"][1])
+            m0 = re.match(r"^([\w.>-]+)\[(\d)\]$", f.text(a0))
+            t1 = f.stmts.get(a1)
+            if not m0 or t1 is None or not (t1["k"] == "CXXOperatorCallExpr" and t1.get("op") == "^" and len(t1.get("args", [])) == 2):
+                continue
+            ia, ib = single(f, t1["args"][0]), single(f, t1["args"][1])
+            if ia is None or ib is None:
+                # std::get<A>(n): the index is a template argument of the callee
+                def tpl(sid):
+                    x = f.stmts.get(f.strip(sid))
+                    if x is not None and x["k"] == "CallExpr":
+                        mm = re.search(r"get<(\d)", x.get("calleeDisplay") or "")
+                        return mm.group(1) if mm else None
+                    return None
+                ia, ib = ia or tpl(t1["args"][0]), ib or tpl(t1["args"][1])
+            if ia is not None and ib is not None:
+                lay.setdefault(m0.group(1), {}).setdefault(m0.group(2), set()).add(frozenset((ia, ib)))
+    # a 6-vector received as a parameter has the layout of the actual argument at the call sites of the function
+    for f in funcs:
+        for s, n in f.stmts.items():
+            if n["k"] == "CallExpr" and n.get("callee"):
+                for g in funcs:
+                    if g.qname == n["callee"] and g.parent is None and len(g.params) == len(n.get("args", [])):
+                        for p_, a_ in zip(g.params, n["args"]):
+                            t = f.text(f.strip(a_))
+                            if t in lay and p_["name"] not in lay:
+                                lay[p_["name"]] = lay[t]
+    return lay
+
+
+def limit_rule(rep, f, lay):
+    """R5: the coincident-eigenvalue limit ((X[a] + X[b] - 2 X[c]) / 2) * (nIJ ^ nIJ) takes X[a], X[b] = the diagonal components of
+    I and J and X[c] = their cross component, according to the layout of X read from the terms X[k] * (nA ^ nB)."""
+    n_ = 0
+    for s, n in sorted(f.stmts.items()):
+        if not (n["k"] == "CXXOperatorCallExpr" and n.get("op") == "*" and len(n.get("args", [])) == 2):
+            continue
+        ts = tensors_of(f, n["args"][1])
+        if not ts or len(ts) != 1:
+            continue
+        t = unparen(f.text(f.strip(n["args"][0])))
+        m = re.match(r"^\(*(\w+)\[(\d)\] \+ (\w+)\[(\d)\]\)* - \(*2 \* (\w+)\[(\d)\]\)*\)* / 2$", t)
+        if not m or not (m.group(1) == m.group(3) == m.group(5)):
+            continue
+        X, a, b, c = m.group(1), m.group(2), m.group(4), m.group(6)
+        L = lay.get(X)
+        if not L or len(L) < 3:
+            raise AnalysisBroken("layout of %s not found (no term %s[k] * (nA ^ nB), directly or through a call site)" % (X, X))
+        (pair,) = tuple(ts)
+        i, j = sorted(pair)
+        n_ += 1
+        ok = L.get(a) == {frozenset((i,))} and L.get(b) == {frozenset((j,))} and L.get(c) == {frozenset((i, j))}
+        ok = ok or (L.get(a) == {frozenset((j,))} and L.get(b) == {frozenset((i,))} and L.get(c) == {frozenset((i, j))})
+        if ok:
+            rep.ok("%s: the limit coefficient of n%s%s uses %s[%s], %s[%s] and the cross component %s[%s]" % (name_of(f), i, j, X, a, X, b, X, c), sample=False)
+        else:
+            want = [k for k, v in L.items() if v == {frozenset((i, j))}]
+            rep.fail("LIMIT-COEFFICIENT@%s#n%s%s" % (re.sub(r"<.*", "", name_of(f)), i, j),
+                     "%s: in %s the coincident-eigenvalue limit multiplying n%s%s ^ n%s%s is (%s[%s] + %s[%s] - 2 %s[%s])/2; by the layout of %s "
+                     "(read from the terms %s[k] * (nA ^ nB)) the diagonal components of %s, %s are %s, %s and their cross component is %s"
+                     % (rel(f.short_loc(s)), name_of(f), i, j, i, j, X, a, X, b, X, c, X, X, i, j,
+                        [k for k, v in L.items() if v == {frozenset((i,))}], [k for k, v in L.items() if v == {frozenset((j,))}], want))
+    rep.count("coincident-eigenvalue limit coefficients", n_)
+
+
 def tensors_of(f, sid, scaled=False):
     """set of index pairs {I,J} for an expression made of (nIJ ^ nIJ) terms (possibly a sum); None if something else."""
     sid = f.strip(sid)
